@@ -318,6 +318,61 @@ theorem C20_parse_render (v : Ver) (hne : v.nums ≠ []) : parseVersion (render 
 
 example : render ⟨[1, 20, 3], some (.rc, some 4)⟩ = "1.20.3-rc.4".toList := by decide
 
+/-! ### the default version string of `ncs/build.py` is in the grammar -/
+
+
+theorem natText_all_digit (n : Nat) : (natText n).all isDigit = true := by
+  rw [List.all_eq_true]; exact fun c hc => natText_digit n c hc
+
+theorem natText_ne_nil (n : Nat) : natText n ≠ [] := Nat.toDigits_ne_nil
+
+theorem natText_head_not_dot (n : Nat) : ∀ r, natText n ≠ '.' :: r := by
+  intro r h
+  have : '.' ∈ natText n := by rw [h]; simp
+  exact natText_no n '.' (by decide) this
+
+/-- `EXTRAVERSION` of the forms `label`, `labelN`, `label.N` is recognised as that label and number -/
+theorem matchExtra_label (l : Label) : matchExtra l.text = some (l, none) := by cases l <;> decide
+
+theorem matchExtra_label_num (l : Label) (n : Nat) (dot : Bool) :
+    matchExtra (l.text ++ (if dot then ['.'] else []) ++ natText n) = some (l, some (natText n)) := by
+  have hd := natText_all_digit n
+  have hne := natText_ne_nil n
+  cases hnt : natText n with
+  | nil => exact absurd hnt hne
+  | cons c cs =>
+    have hc : c ≠ '.' := by
+      intro h; subst h; exact natText_head_not_dot n cs hnt
+    rw [hnt] at hd
+    cases l <;> cases dot <;>
+      simp [matchExtra, Label.text, List.isPrefixOf, Option.orElse, hd, hc, List.drop]
+  
+
+/-- the `EXTRAVERSION` text of a pre-release (`dot`: written `rc.1` rather than `rc1`) -/
+def extraOf (pre : Option (Label × Option Nat)) (dot : Bool) : Option (List Char) :=
+  match pre with
+  | none => none
+  | some (l, none) => some l.text
+  | some (l, some n) => some (l.text ++ (if dot then ['.'] else []) ++ natText n)
+
+/-- **Default version string.** For every VERSION file with numeric MAJOR / MINOR / PATCHLEVEL and an EXTRAVERSION that is absent or of
+the form label, labelN or label.N, the default version string `ncs/build.py` derives is the text of the grammar for exactly that
+version (unbounded numbers) … -/
+theorem C20_default_version (M m p : Nat) (pre : Option (Label × Option Nat)) (dot : Bool) :
+    defaultVersion (natText M) (natText m) (natText p) (extraOf pre dot) = render ⟨[M, m, p], pre⟩ := by
+  rcases pre with _ | ⟨l, _ | n⟩
+  · simp [defaultVersion, extraOf, render, joinWith, List.append_assoc]
+  · simp [defaultVersion, extraOf, render, joinWith, matchExtra_label, List.append_assoc]
+  · simp only [defaultVersion, extraOf, matchExtra_label_num, render, joinWith, List.map_cons, List.map_nil]
+    simp [List.append_assoc]
+
+/-- … and therefore the manifest encoder reads it as the integer list the draft assigns to that version -/
+theorem C20_default_version_parses (M m p : Nat) (pre : Option (Label × Option Nat)) (dot : Bool) :
+    parseVersion (defaultVersion (natText M) (natText m) (natText p) (extraOf pre dot)) = some (conv ⟨[M, m, p], pre⟩) := by
+  rw [C20_default_version]; exact C20_parse_render _ (by simp)
+
+example : defaultVersion (natText 1) (natText 2) (natText 3) (extraOf (some (.rc, some 1)) false) = "1.2.3-rc.1".toList := by decide
+
 example : parseVersion "1.2.3-rc.4".toList = some [1, 2, 3, -1, 4] := by decide
 example : parseVersion "1.2.3-gamma".toList = none := by decide
 example : defaultVersion "1".toList "2".toList "3".toList (some "rc1".toList) = "1.2.3-rc.1".toList := by decide
